@@ -772,3 +772,12 @@ def callee_qual(ctx, fn, call):
     if isinstance(f, ast.Attribute) and isinstance(f.value, ast.Name):
         return f.value.id
     return src(f)
+
+
+# Declared order of positional parents is fixed when the edges are added (= C14-g).
+from . import C14 as _C14   # noqa: E402
+
+obligation('C03-i', 'T5 T8', 'positional parents are numbered in declaration order when the graph '
+           'is built (shared with C14-g)', floor=4,
+           necessary='the executor sorts positional arguments by the index stored on the edge: '
+                     'a wrong index is a wrong argument order')(_C14.c14_g)
